@@ -1,7 +1,11 @@
 package props
 
 import (
+	"fmt"
 	"math"
+
+	"github.com/sahandsafizadeh/qeep/tensor"
+	"qeepverif/internal/rt"
 
 	"qeepverif/internal/fw"
 	"qeepverif/internal/ref"
@@ -121,6 +125,10 @@ func runC07(c *fw.Ctx) {
 			}
 		}
 	}
+	// ---- two graphs that share only a leaf, both built BEFORE either is back-propagated; the leaf is expanded to the same shape in both ----
+	for i := 0; i < c.Pick(1500, 20000); i++ {
+		c.Case(func(k *fw.K) { c07TwoGraphs(k) })
+	}
 	// ---- sampled pairs with sizes up to 7 ----
 	for i := 0; i < c.Pick(2000, 20000); i++ {
 		c.Case(func(k *fw.K) {
@@ -151,5 +159,82 @@ func runC07(c *fw.Ctx) {
 			a, b := u(k, pr[0]), u(k, pr[1])
 			run(k, ref.Instr{Op: op}, []*ref.T{a, b}, masks[k.Rng.Intn(3)])
 		})
+	}
+}
+
+func c07TwoGraphs(k *fw.K) {
+	dst := RandShape(k.Rng, 1, 3, 3)
+	srcs := BroadcastSources(dst)
+	sx := srcs[k.Rng.Intn(len(srcs))]
+	x := Shuffled(k.Rng, Unique(k.Rng, sx, 0.2, 2.5))
+	n := 2 + k.Rng.Intn(2)
+	p := ref.Prog{{Op: "leaf", Shape: sx, Data: x.Data, Tracked: true}}
+	var roots []int
+	var seeds []*ref.T
+	for g := 0; g < n; g++ {
+		o := Shuffled(k.Rng, Unique(k.Rng, dst, 0.2, 2.5))
+		p = append(p, ref.Instr{Op: "leaf", Shape: dst, Data: o.Data, Tracked: k.Rng.Intn(2) == 0})
+		op := c03Arith[k.Rng.Intn(3)] // add / sub / mul
+		if k.Rng.Intn(4) == 0 {
+			p = append(p, ref.Instr{Op: "broadcast", In: []int{0}, Shape: dst})
+			p = append(p, ref.Instr{Op: op, In: []int{len(p) - 1, len(p) - 2}})
+		} else {
+			p = append(p, ref.Instr{Op: op, In: []int{0, len(p) - 1}})
+		}
+		gw := randG(k, dst)
+		p = append(p, ref.Instr{Op: "leaf", Shape: dst, Data: gw.Data})
+		p = append(p, ref.Instr{Op: "mul", In: []int{len(p) - 2, len(p) - 1}})
+		roots = append(roots, len(p)-1)
+		seeds = append(seeds, nil)
+	}
+	k.Case = c01case{Family: "graphs sharing one expanded leaf, all built before any back-propagation", Prog: p, Roots: roots}
+	kf := ref.Prod(dst) / ref.Prod(sx)
+	if kf > 1 {
+		k.Key("two-graphs/%s/%s/%d", shapeKey(sx), shapeKey(dst), n)
+	}
+	k.Count("shared_expanded_leaf_histories", 1)
+	vals, err := p.Eval()
+	if err != nil {
+		k.Failf("harness: %v", err)
+		return
+	}
+	var ts []tensor.Tensor
+	if pn := call(func() { ts, err = rt.Run(p) }); pn != nil || err != nil {
+		k.Failf("forward execution failed: panic=%v err=%v", pn, err)
+		return
+	}
+	sum := make([]*ref.T, len(p))
+	avg := make([]*ref.T, len(p))
+	accumulate := func(acc []*ref.T, g []*ref.T) {
+		for i := range g {
+			if g[i] == nil {
+				continue
+			}
+			if acc[i] == nil {
+				acc[i] = g[i].Clone()
+			} else {
+				for q := range acc[i].Data {
+					acc[i].Data[q] += g[i].Data[q]
+				}
+			}
+		}
+	}
+	for gi, root := range roots {
+		var berr error
+		if pn := call(func() { berr = tensor.BackPropagate(ts[root]) }); pn != nil || berr != nil {
+			k.Failf("back-propagation %d failed: panic=%v err=%v", gi+1, pn, berr)
+			return
+		}
+		accumulate(sum, p.Grad(vals, root, seeds[gi], ref.RuleSum))
+		accumulate(avg, p.Grad(vals, root, seeds[gi], ref.RuleAvg))
+		what := fmt.Sprintf("after back-propagation %d of %d graphs sharing the expanded leaf", gi+1, n)
+		if msg := checkGrads(ts, sum, what); msg != "" {
+			if kf > 1 && checkGrads(ts, avg, what) == "" {
+				k.Knownf(knownBroadcastMean, "%s: every gradient equals the accumulated MEAN over the copies (%s)", what, msg)
+				continue
+			}
+			k.Failf("%s", msg)
+			return
+		}
 	}
 }
